@@ -559,8 +559,11 @@ class Engine:
         # value semantics: a and b -> b if truth(a) else a
         res = vals[-1]
         for v in reversed(vals[:-1]):
-            a, b, t = self.unify(v, res, st)
             c = self.truth(v, st)
+            if not is_and and v.ty.kind == 'Optional':
+                # `x or y`: when x is truthy it is not None, so the result is never None because of x
+                v = self.unbox(v.ty.args[0], T.opt_val(v.ty, v.t), st)
+            a, b, t = self.unify(v, res, st)
             res = self.ite(c, b, a, t, st) if is_and else self.ite(c, a, b, t, st)
         return res
 
